@@ -32,6 +32,7 @@ type gateSched struct {
 	calls []opCall // every storage call in completion order
 	drift []string
 	wait  time.Duration
+	onOp  func(opCall) // called for every completed storage call, in completion order
 }
 
 type opCall struct {
@@ -61,8 +62,13 @@ func (g *gateSched) called(pid int, name string, err error) {
 		res = "err"
 	}
 	g.mu.Lock()
-	g.calls = append(g.calls, opCall{P: pid, Name: name, Res: res})
+	c := opCall{P: pid, Name: name, Res: res}
+	g.calls = append(g.calls, c)
+	f := g.onOp
 	g.mu.Unlock()
+	if f != nil {
+		f(c)
+	}
 }
 
 // settle waits until process p is at a gate, has ended, or is blocked inside a call (timeout).
